@@ -64,8 +64,10 @@ def truncation_cases(tier, rng, prefix_id, n_streams, cuts_per):
                 else:
                     # the first value not wholly contained: some command of its reading sequence reports End, none
                     # before it reports anything else than its full-input result
+                    # (an item that is SKIPPED is consumed by one command: that command itself must report End - it cannot have skipped
+                    #  what is not there)
                     for cm, ex in cmds:
-                        script.append(cm); expect.append(None)
+                        script.append(cm); expect.append("throw End" if (len(cmds) == 1 and cm == "D sk" and c < e) else None)
                     script.append("D u"); expect.append("throw End")
                     break
             else:
